@@ -90,7 +90,7 @@ def gen_decls(rng, names, vis, n_items, allow=("enum", "struct", "impl", "servic
             for fi, fn in enumerate(rng.sample(S.WORDS, nf)):
                 f = {"name": fn, "id": fi, "type": gen_type(rng, vis["structs"], vis["enums"])}
                 if rng.random() < 0.2:
-                    f["unit"] = rng.choice(["C", "V", "rpm", "%", "m/s", "\u00b0C", "\u00b5s", "\u03a9", "km/h\tfront", "a  b"])
+                    f["unit"] = rng.choice(["C", "V", "rpm", "%", "m/s", "\u00b0C", "\u00b5s", "\u03a9", "km/h\tfront", "a  b", "C:\\\\", "q\\\"uote"])
                 if rng.random() < 0.12 and f["type"][0] in ("u", "i", "f32", "f64"):
                     f["range"] = [0.0, rng.randint(1, 100) + 0.5]
                 fields.append(f)
